@@ -45,6 +45,9 @@ var funcRe = regexp.MustCompile(`^func (Harness\w+)\(\)`)
 func LoadHarnessFiles(paths []string) (*HarnessSet, error) {
 	set := &HarnessSet{}
 	for _, p := range paths {
+		// "file.go#lib": take the file for its helpers, ignore its harnesses
+		lib := strings.HasSuffix(p, "#lib")
+		p = strings.TrimSuffix(p, "#lib")
 		src, err := os.ReadFile(p)
 		if err != nil {
 			return nil, err
@@ -78,7 +81,9 @@ func LoadHarnessFiles(paths []string) (*HarnessSet, error) {
 				if m := funcRe.FindStringSubmatch(line); m != nil && pending != nil {
 					pending.Func = m[1]
 					pending.Pkg = hf.Pkg
-					set.Harnesses = append(set.Harnesses, *pending)
+					if !lib {
+						set.Harnesses = append(set.Harnesses, *pending)
+					}
 					pending = nil
 				}
 			}
